@@ -40,6 +40,11 @@ COMPONENTS = [".", "..", "in.bin", "sub", "sub/in2.bin", "", "link_in", "link_ou
               "nope.bin", "..", "../outside", "canary.bin", "../base_evil", "evil.bin", "dirfile", "in.bin/", "sub/..", "ABS_OUT", "ABS_IN", "ABS_BASE"]
 BASES = ["abs", "rel", "abs_slash", "via_symlink", "dotdot", "dot", "rel_dotslash", "abs_unnorm"]
 ENTRIES = ["numpy", "__array__", "tobytes", "tofile_bytesio", "tofile_file", "lazy", "load_to_model", "save"]
+# where the external tensor sits in the loaded model
+WHERES = ["main_initializer", "subgraph_initializer", "depth2_subgraph_initializer", "constant_attr_main", "constant_attr_subgraph",
+          "constant_attr_depth2", "constant_attr_function", "tensors_attr_subgraph"]
+PRE = ["none", "numpy", "tobytes", "__array__", "numpy_then_release"]
+HARMLESS = b"HARMLESS" * 2
 LOADS = ["bare", "dot_slash", "rel_dotdot", "absolute", "via_symlink_dir", "rel_subdir"]
 
 
@@ -48,9 +53,10 @@ def strategy(tier, phase):
 
     comp = st.integers(0, len(COMPONENTS) - 1)
     read = st.fixed_dictionaries({"mode": st.just("read"), "loc": st.lists(comp, min_size=1, max_size=4), "base": st.integers(0, len(BASES) - 1),
-                                  "entry": st.integers(0, len(ENTRIES) - 1), "offset": st.sampled_from([0, 0, 2])})
+                                  "entry": st.integers(0, len(ENTRIES) - 1), "offset": st.sampled_from([0, 0, 2]),
+                                  "pre": st.sampled_from([0, 0, 1, 2, 3, 4])})
     load = st.fixed_dictionaries({"mode": st.just("load"), "loc": st.lists(comp, min_size=1, max_size=4), "how": st.integers(0, len(LOADS) - 1),
-                                  "entry": st.integers(0, 4), "offset": st.sampled_from([0, 2])})
+                                  "entry": st.integers(0, 4), "offset": st.sampled_from([0, 2]), "where": st.integers(0, len(WHERES) - 1)})
     return st.one_of(read, read, load)
 
 
@@ -214,7 +220,41 @@ def execute(case):
             if BASES[case["base"] % len(BASES)] == "dot":
                 os.chdir(base)
             bd = base_spelling(case["base"], root, base)
-            t = ir.ExternalTensor(loc, off, length, ir.DataType.UINT8, shape=ir.Shape([length]), name="t", base_dir=bd)
+            pre = PRE[case.get("pre", 0) % len(PRE)]
+            if pre == "none":
+                t = ir.ExternalTensor(loc, off, length, ir.DataType.UINT8, shape=ir.Shape([length]), name="t", base_dir=bd)
+            else:
+                # history: the tensor is first read under a harmless base directory in which the same location is a plain
+                # regular file, then re-pointed (tensor.base_dir = ...) at the adversarial base, then read again
+                harmless = os.path.join(root, "harmless")
+                hp = os.path.normpath(os.path.join(harmless, loc))
+                ok_pre = False
+                if (hp + os.sep).startswith(harmless + os.sep) and not os.path.isabs(loc) and not loc.endswith(("/", ".")) and loc:
+                    try:
+                        os.makedirs(os.path.dirname(hp), exist_ok=True)
+                        if not os.path.exists(hp):
+                            with open(hp, "wb") as f:
+                                f.write(HARMLESS)
+                        ok_pre = os.path.isfile(hp)
+                    except OSError:
+                        ok_pre = False
+                t = ir.ExternalTensor(loc, off, length, ir.DataType.UINT8, shape=ir.Shape([length]), name="t", base_dir=harmless if ok_pre else bd)
+                if ok_pre:
+                    try:
+                        if pre in ("numpy", "numpy_then_release"):
+                            t.numpy()
+                        elif pre == "tobytes":
+                            t.tobytes()
+                        else:
+                            import numpy as np
+
+                            np.asarray(t)
+                        if pre == "numpy_then_release":
+                            t.release()
+                        classes.append("pre_read_" + pre)
+                    except Exception:
+                        classes.append("pre_read_raised")
+                    t.base_dir = bd
             label = ENTRIES[case["entry"] % len(ENTRIES)]
             eff_base = bd
         else:
@@ -222,8 +262,8 @@ def execute(case):
             tp = onnx.TensorProto(name="w", data_type=onnx.TensorProto.UINT8, dims=[length], data_location=onnx.TensorProto.EXTERNAL)
             for k, v in (("location", loc), ("offset", str(off)), ("length", str(length))):
                 tp.external_data.add(key=k, value=v)
-            mp = onnx.ModelProto(ir_version=10, graph=onnx.GraphProto(name="g", initializer=[tp]))
-            mp.opset_import.add(domain="", version=20)
+            mp = _model_with_tensor(onnx, tp, WHERES[case.get("where", 0) % len(WHERES)])
+            classes.append(WHERES[case.get("where", 0) % len(WHERES)])
             mpath = os.path.join(base, "model.onnx")
             with open(mpath, "wb") as f:
                 f.write(mp.SerializeToString())
@@ -245,8 +285,11 @@ def execute(case):
                 os.chdir(root)
                 arg = "base/model.onnx"
             model = ir.load(arg)
-            t = model.graph.initializers["w"].const_value
-            label = "load:" + how
+            found = [x for x in _all_ir_tensors(ir, model) if isinstance(x, ir.ExternalTensor)]
+            if len(found) != 1:
+                raise RuntimeError(f"harness: expected one external tensor, found {len(found)}")
+            t = found[0]
+            label = "load:" + how + ":" + WHERES[case.get("where", 0) % len(WHERES)]
             eff_base = base  # the model's directory, whatever the spelling
             classes.append(how)
         allowed, resolved = oracle_allowed(eff_base if mode == "load" else os.path.abspath(eff_base), loc)
@@ -259,12 +302,20 @@ def execute(case):
             classes.append("returned")
         except Exception as e:
             classes.append("raised")
-        if got is not None and len(got) > 0:
+        if got is not None and len(got) > 0 and got[:length] == HARMLESS[off: off + length]:
+            classes.append("bytes_of_the_earlier_harmless_base")  # cached from the first, legitimate read: not an escape
+        elif got is not None and len(got) > 0:
             if not allowed:
                 which = [p for p, data in canaries.items() if data[off: off + length] == got[:length]]
                 where = "outside" if which and not which[0].startswith(base + os.sep) else "inside-but-forbidden"
                 kind = _why(eff_base if mode == "load" else os.path.abspath(eff_base), loc, resolved)
-                fails.append((f"escape/{'load' if mode == 'load' else 'read'}/{kind}", f"{label}: location {loc!r} with base {eff_base!r} returned bytes {got[:16]!r} of {which[:1]} ({where}); resolved target {resolved}"))
+                site = "read"
+                if mode == "load":
+                    wh = WHERES[case.get("where", 0) % len(WHERES)]
+                    site = "load" if wh == "main_initializer" else f"load@{wh}"
+                elif "pre" in case and PRE[case.get("pre", 0) % len(PRE)] != "none":
+                    site = "read-after-rebase"
+                fails.append((f"escape/{site}/{kind}", f"{label}: location {loc!r} with base {eff_base!r} returned bytes {got[:16]!r} of {which[:1]} ({where}); resolved target {resolved}"))
             else:
                 exp = open(resolved, "rb").read()[off: off + length]
                 if got[:length] != exp:
@@ -277,11 +328,101 @@ def execute(case):
     except Exception as e:
         import traceback
 
+        if os.environ.get("VERIF_DEBUG"):
+            traceback.print_exc()
         return dict(failures=[], nontrivial=False, classes=[f"harness_skip_{type(e).__name__}"])
     finally:
         os.chdir(old_cwd)
         shutil.rmtree(root, ignore_errors=True)
     return dict(failures=fails, nontrivial=nontrivial, classes=classes)
+
+
+def _model_with_tensor(onnx, tp, where):
+    """A ModelProto (IR 10, opset 20) holding the external tensor `tp` at the requested place."""
+    from onnx import helper as oh
+
+    TP = onnx.TensorProto
+    cond = oh.make_tensor_value_info("c", TP.BOOL, [])
+    out = oh.make_tensor_value_info("o", TP.UINT8, [8])
+
+    def const_node(name="k"):
+        n = onnx.NodeProto(op_type="Constant", name="const_" + name, output=[name])
+        a = n.attribute.add()
+        a.name, a.type = "value", onnx.AttributeProto.TENSOR
+        a.t.CopyFrom(tp)
+        return n
+
+    def branch(name, nodes, inits, result):
+        return oh.make_graph(nodes, name, [], [oh.make_tensor_value_info(result, TP.UINT8, [8])], initializer=inits)
+
+    def if_node(name, tb, eb, outname):
+        return oh.make_node("If", ["c"], [outname], name=name, then_branch=tb, else_branch=eb)
+
+    plain = branch("else_g", [oh.make_node("Constant", [], ["e"], value=oh.make_tensor("ev", TP.UINT8, [8], list(range(8))))], [], "e")
+    functions = []
+    inits = []
+    if where == "main_initializer":
+        nodes = [oh.make_node("Identity", ["w"], ["o"])]
+        inits = [tp]
+    elif where == "subgraph_initializer":
+        tb = branch("then_g", [oh.make_node("Identity", ["w"], ["t"])], [tp], "t")
+        nodes = [if_node("if0", tb, plain, "o")]
+    elif where == "depth2_subgraph_initializer":
+        inner = branch("inner_then", [oh.make_node("Identity", ["w"], ["t2"])], [tp], "t2")
+        inner_else = branch("inner_else", [oh.make_node("Constant", [], ["e2"], value=oh.make_tensor("ev2", TP.UINT8, [8], list(range(8))))], [], "e2")
+        tb = branch("then_g", [if_node("if1", inner, inner_else, "t")], [], "t")
+        nodes = [if_node("if0", tb, plain, "o")]
+    elif where == "constant_attr_main":
+        nodes = [const_node("o")]
+    elif where == "constant_attr_subgraph":
+        tb = branch("then_g", [const_node("t")], [], "t")
+        nodes = [if_node("if0", tb, plain, "o")]
+    elif where == "constant_attr_depth2":
+        inner = branch("inner_then", [const_node("t2")], [], "t2")
+        inner_else = branch("inner_else", [oh.make_node("Constant", [], ["e2"], value=oh.make_tensor("ev2", TP.UINT8, [8], list(range(8))))], [], "e2")
+        tb = branch("then_g", [if_node("if1", inner, inner_else, "t")], [], "t")
+        nodes = [if_node("if0", tb, plain, "o")]
+    elif where == "constant_attr_function":
+        functions = [oh.make_function("local", "fn", [], ["y"], [const_node("y")], [oh.make_opsetid("", 20)])]
+        nodes = [oh.make_node("fn", [], ["o"], domain="local")]
+    else:  # tensors_attr_subgraph: a TENSORS attribute on a custom node inside a subgraph
+        n = onnx.NodeProto(op_type="Custom", domain="custom", name="cust", output=["t"])
+        a = n.attribute.add()
+        a.name, a.type = "many", onnx.AttributeProto.TENSORS
+        a.tensors.add().CopyFrom(oh.make_tensor("first", TP.UINT8, [1], [1]))
+        a.tensors.add().CopyFrom(tp)
+        tb = branch("then_g", [n], [], "t")
+        nodes = [if_node("if0", tb, plain, "o")]
+    g = oh.make_graph(nodes, "g", [cond], [out], initializer=inits)
+    mp = oh.make_model(g, ir_version=10, opset_imports=[oh.make_opsetid("", 20), oh.make_opsetid("local", 1), oh.make_opsetid("custom", 1)], functions=functions)
+    return mp
+
+
+def _all_ir_tensors(ir, model):
+    out = []
+    graphs = [model.graph] + [f.graph for f in model.functions.values()]
+    seen = set()
+    while graphs:
+        g = graphs.pop()
+        if id(g) in seen:
+            continue
+        seen.add(id(g))
+        for v in g.initializers.values():
+            if v.const_value is not None:
+                out.append(v.const_value)
+        for n in g:
+            for a in n.attributes.values():
+                if a.is_ref():
+                    continue
+                if a.type == ir.AttributeType.TENSOR and a.value is not None:
+                    out.append(a.value)
+                elif a.type == ir.AttributeType.TENSORS:
+                    out.extend(a.value)
+                elif a.type == ir.AttributeType.GRAPH and a.value is not None:
+                    graphs.append(a.value)
+                elif a.type == ir.AttributeType.GRAPHS:
+                    graphs.extend(a.value)
+    return out
 
 
 def _why(base, loc, resolved):
